@@ -95,6 +95,13 @@ Example C05_ex_segwit :
 Proof. vm_compute. reflexivity. Qed.
 Example C05_ex_cs : map cs_width [0; 252; 253; 65535; 65536; 4294967295; 4294967296] = [1; 1; 3; 3; 5; 5; 9]%nat.
 Proof. vm_compute. reflexivity. Qed.
+(* C05_reader_sound applies to inputs that are not of the form [serialize t] *)
+Example C05_ex_reader_sound :
+  let raw := serialize_segwit sample_tx 1 sample_wits ++ [byte_of_N 9] in
+  let p := lift_with 1 (concat sample_wits) sample_tx in
+  N.of_nat (length raw) < MAXSIZE1 /\ deserialize raw = ROk p /\ p_ins p <> [] /\
+  pser p = ROk (serialize sample_tx) /\ raw <> serialize sample_tx.
+Proof. exact sample_reader_sound_hyps. Qed.
 (* a transaction without inputs does NOT round-trip (its bytes start with the segwit marker):
    the reason wf_tx asks for an input *)
 Example C05_ex_no_input : deserialize (serialize no_input_tx) <> ROk (lift no_input_tx).
